@@ -34,9 +34,10 @@ ASSUMPTIONS = ASSUMPTIONS_TRANSPORT + [
 COMPONENTS = COMPONENTS_TRANSPORT
 PLAN = {
     "quick": {"budget_s": 75, "max_runs": 10 ** 7,
-              "variants": ["agreement", "agreement", "resumption", "bad_cert", "mitm", "tls_integrity"]},
+              "variants": ["agreement", "agreement", "resumption", "bad_cert", "mitm", "tls_integrity", "adversary"]},
     "thorough": {"budget_s": 1200, "max_runs": 10 ** 9,
-                 "variants": ["agreement", "agreement", "resumption", "bad_cert", "mitm", "tls_integrity"]},
+                 "variants": ["agreement", "agreement", "resumption", "bad_cert", "mitm", "tls_integrity",
+                              "adversary"]},
 }
 
 ALPNS = (["verif"], ["verif", "other"], ["other", "verif"], ["other"], ["x1", "x2", "verif"], ["zzz"])
@@ -390,6 +391,16 @@ def run_one(seed, tier="quick", variant=None, replay=None):
         return run_transcript_integrity(seed, tier, replay)
     if variant == "resumption":
         return run_resumption(seed, replay)
+    if variant == "adversary":
+        # the key-holding TLS adversary of C11 also decides C03's first clause: the client completes only
+        # after the server proved possession of the certificate key or of a resumption secret the client
+        # offered (PSK selected with another suite / without knowing the secret / not offered at all)
+        from checks import c11
+
+        out = c11.run_one(seed, tier=tier, variant="skip_attacks", replay=replay)
+        if out.violation is not None:
+            out.violation["oracle"] = "c03.authenticity-adversary"
+        return out
     holder = {}
 
     def make(mon):
